@@ -269,7 +269,8 @@ def print_axioms(module):
     res, cur = {}, None
     if r.returncode:
         return None, r.stdout
-    txt = r.stdout.replace("\n  ", " ")
+    # a long theorem name makes Lean wrap the axiom list over several lines (continuation lines start with a blank)
+    txt = re.sub(r"\n[ \t]+", " ", r.stdout)
     for line in txt.splitlines():
         m = re.match(r"'(.+)' depends on axioms: \[(.*)\]", line)
         if m:
